@@ -29,6 +29,8 @@ func init() {
 			{ID: "C01.R6", Text: "Metadata.Save backends marshal the document they are given and derive the document id from the same vBucket id", Run: c01r6},
 			{ID: "C01.R8", Text: "the resume position is the stored one: Load builds each offset from the loaded document's own fields and never modifies a loaded document (same rule as C02.R2)", Run: c02r2},
 			{ID: "C01.R9", Text: "a missing checkpoint is concluded only from evidence (file: exactly os.ErrNotExist; Couchbase: after read and parse) — otherwise a read fault at restart would move every vBucket past unsettled events (same rule as C02.R7)", Run: c02r7},
+			{ID: "C01.R10", Text: "only library-internal keys are absorbed without an acknowledgement: IsMetadata ⇔ the key starts with one of the two reserved prefixes (same rule as C14.R2)", Run: c14r2},
+			{ID: "C01.R11", Text: "absorbed events are the server's: every event wrapper is built by the stream-observer handler of its own kind from the event it received — no synthetic system/seqno-advanced event moves the position (same rule as C03.R4)", Run: c03r4},
 			{ID: "C01.R7", Text: "no store through a pointer to a field of models.Offset / models.SnapshotMarker outside the composite literal that allocates it", Run: immutableOffsets},
 		},
 	})
